@@ -1065,7 +1065,7 @@ def MessageHeader_getSegmentType (m : Bytes) (this_ : Nat) : Option Nat := do
   let t2 ← to_underlying_u83 12
   pure ((t1 &&& t2) % 256)
 
-/-- `ASAM::CMP::Decoder::SegmentedPacket::isValidSegmentType` (line 156) -/
+/-- `ASAM::CMP::Decoder::SegmentedPacket::isValidSegmentType` (line 157) -/
 def Decoder_SegmentedPacket_isValidSegmentType (m : Bytes) (this_ : Nat) (a_type : Nat) : Option Bool := do
   let t1 ← rd m (this_ + 24) 1
   let sw2 := t1
@@ -1076,17 +1076,17 @@ def Decoder_SegmentedPacket_isValidSegmentType (m : Bytes) (this_ : Nat) (a_type
   else
     pure false
 
-/-- `ASAM::CMP::Decoder::SegmentedPacket::isAssembled` (line 139) -/
+/-- `ASAM::CMP::Decoder::SegmentedPacket::isAssembled` (line 140) -/
 def Decoder_SegmentedPacket_isAssembled (m : Bytes) (this_ : Nat) : Option Bool := do
   let t1 ← rd m (this_ + 24) 1
   pure (t1 == 12)
 
-/-- `ASAM::CMP::Decoder::isFirstSegment` (line 95) -/
+/-- `ASAM::CMP::Decoder::isFirstSegment` (line 96) -/
 def Decoder_isFirstSegment (m : Bytes) (a_data : Nat) (a_anon1 : Nat) : Option Bool := do
   let t2 ← MessageHeader_getSegmentType m a_data
   pure (t2 == 4)
 
-/-- `ASAM::CMP::Decoder::isSegmentedPacket` (line 90) -/
+/-- `ASAM::CMP::Decoder::isSegmentedPacket` (line 91) -/
 def Decoder_isSegmentedPacket (m : Bytes) (a_data : Nat) (a_anon1 : Nat) : Option Bool := do
   let t2 ← MessageHeader_getSegmentType m a_data
   pure (t2 != 0)
